@@ -89,6 +89,18 @@ CHECKS = {
              'which establish the hypotheses ResetsAtBoundary and "the environment is the table" on every monitored compilation, not for '
              'all inputs. A genuine defect was repaired by fix: commit ed2f68f (is_final kept in signatures).',
         design='DESIGN.md §6 C10'),
+    'C05': dict(
+        technique='Lean 4 proof by structural induction that the compiled telingo formula means the CNL condition on every finite trace, over regenerated operator tables; clingo/telingo tie and search',
+        text='Lean theorem C05_main: for every temporal condition (operands and tails nested to any depth, all 14 supported leading/hold '
+             'combinations with the since-before/after shifts, all 12 dual phrases, the 4 constants, outer negation), every finite trace and every '
+             'state, the compiled rule fires exactly when the reference reading of the sentence is true; table-totality and duality theorems. '
+             'Operator tables are regenerated from the source on every run.',
+        note='Trusted: Lean kernel; extract_tables.py; Tel.eval as a model of telingo 2.1.3 (validated on every run against the real telingo '
+             'on all 4^h traces, h<=3 (4 thorough), for every grid shape); clingo\'s theory-term parser with telingo\'s operator table ties the '
+             'printed text to the model tree; the reference readings are hand-written (listed in Compiler/Temporal.lean). Partial: conditions '
+             'outside the reference reading (negated hold conditions, hold without leading operator, entity prefixes inside formulas) are only '
+             'exercised; known findings F14, F16, F17, F25; genuine defect F4a repaired by fix: commit 8e63ed9.',
+        design='DESIGN.md §6 C05'),
 }
 
 NOT_YET = {}
